@@ -1,5 +1,6 @@
 import JediModel.Proto
 import JediModel.Model.WalkSrc
+import JediModel.Model.Prefilter
 open Lean Proto JediModel.Walk JediModel.Search
 
 def parseFile (j : Json) : FileEnt := { name := chars j "name", content := chars j "content" }
@@ -73,6 +74,19 @@ def handle (j : Json) : Json :=
       (nat j "open_limit") (chars j "type") (chars j "name") (bool j "complete") evs with
     | some r => jarr (r.map nmJson)
     | none => jobj [("model_outcome", jstr "error: the file branch of step 1 reaches `yield from` without `m`")]
+  | "prefilter" =>
+    -- the filter step of _check_fs with the pattern / step order / flags of the source; `words` = the
+    -- characters of this request that python's `re` counts as \w
+    let words := chars j "words"
+    match JediModel.Prefilter.patternOf JediModel.Gen.C19.prefilterPattern with
+    | none => jobj [("model_outcome", jstr "error: unknown pattern shape")]
+    | some p =>
+      match JediModel.Prefilter.passes (fun c => words.contains c) JediModel.Prefilter.utf8
+          JediModel.Gen.C19.checkFsSteps p JediModel.Gen.C19.prefilterPatternIsBytes
+          (JediModel.Gen.C19.prefilterFlags.contains "ASCII") (bool j "complete") (chars j "name")
+          (nats j "data") (chars j "text") with
+      | some b => jbool b
+      | none => jstr "TypeError"
   | op => jobj [("error", jstr ("unknown op " ++ op))]
 
 def main : IO Unit := Proto.run handle
